@@ -196,8 +196,15 @@ fn observe(m: &ModuleFacts, c: &Case, id: usize) -> Result<Obs, String> {
 pub fn run(cfg: &RunCfg) -> Report {
     let mut rep = Report::new(
         "C16",
-        "every Rust strict/reserved/weak keyword (plain, hyphenated, capitalised, upper-case) in every role {module, type, component, alternative, enumeral, value}; all legal ASN.1 names of length ≤4 (thorough ≤5) over {a,B,1,-}; seeded random names ≤24 chars; non-trivial = compiled and the identifier (and identifier annotation) was read back from the syn projection; distinct = distinct (role, name)",
+        "every Rust strict/reserved/weak keyword (plain, hyphenated, capitalised, upper-case) in every role {module, type, component, alternative, enumeral, value}; every keyword also at the use sites of its identifier (variant in a From impl under generate_from_impls, function named by a default attribute, variant in an ENUMERATED constant); all legal ASN.1 names of length ≤4 (thorough ≤5) over {a,B,1,-}; seeded random names ≤24 chars; non-trivial = compiled and the identifier (and identifier annotation) was read back from the syn projection; distinct = distinct (role, name)",
     );
+    if let Some(r) = &cfg.replay {
+        let r = r.get("case").unwrap_or(r);
+        if r["role"].as_str() == Some("use-site") {
+            use_sites(&[r["name"].as_str().unwrap_or("type").to_string()], &mut rep);
+            return rep;
+        }
+    }
     let cases: Vec<Case> = if let Some(r) = &cfg.replay {
         let r = r.get("case").unwrap_or(r);
         let role = ROLES.iter().find(|x| **x == r["role"].as_str().unwrap_or("")).expect("role");
@@ -415,5 +422,111 @@ pub fn run(cfg: &RunCfg) -> Report {
             rep.unsat("", agree, json!({"why": "ASN.1 name neither equals the identifier nor is carried by an identifier annotation", "case": case_json}));
         }
     }
+    if cfg.replay.is_none() {
+        let mut names: Vec<String> = KEYWORDS.iter().map(|k| k.to_string()).collect();
+        names.extend(KEYWORDS.iter().take(12).map(|k| format!("{k}-x")));
+        use_sites(&names, &mut rep);
+    }
     rep
+}
+
+/// Where a generated identifier is *used* it must be spelled as where it is declared: the variant named in a
+/// `From` impl (option generate_from_impls), the function named in a `default = ".."` attribute, the variant named
+/// in the constant of an ENUMERATED value — for every keyword as the ASN.1 name.
+fn use_sites(names: &[String], rep: &mut Report) {
+    for chunk in names.chunks(20) {
+        let cfg = rasn_compiler::prelude::RasnConfig { generate_from_impls: true, ..Default::default() };
+        let mut body = String::new();
+        for (k, n) in chunk.iter().enumerate() {
+            body.push_str(&format!("Uc{k} ::= CHOICE {{ {n} INTEGER, other BOOLEAN }}\nUs{k} ::= SEQUENCE {{ {n} INTEGER DEFAULT 5 }}\nUe{k} ::= ENUMERATED {{ {n}, other }}\nuv{k} Ue{k} ::= {n}\n"));
+        }
+        let src = format!("Use-Mod DEFINITIONS AUTOMATIC TAGS ::= BEGIN\n{body}END\n");
+        let outcome = compile_rasn_cfg(&[src], cfg);
+        let case = |n: &str| json!({"role": "use-site", "name": n, "body": 0});
+        match outcome {
+            Outcome::Ok { generated, .. } => match proj::project(&generated) {
+                Ok(mods) => {
+                    let Some(m) = mods.first() else { continue };
+                    for (k, n) in chunk.iter().enumerate() {
+                        rep.evaluations += 1;
+                        rep.count("use-site");
+                        let variants_of = |item: &str| -> Vec<String> {
+                            match m.item(item).map(|i| &i.kind) {
+                                Some(ItemKind::Enum { variants }) => variants.iter().map(|v| v.name.clone()).collect(),
+                                _ => vec![],
+                            }
+                        };
+                        // (1) From impls of the CHOICE
+                        let cv = variants_of(&format!("Uc{k}"));
+                        let mut impls = 0;
+                        for it in &m.items {
+                            if let ItemKind::Impl { trait_: Some(t), self_ty, body } = &it.kind {
+                                if t.starts_with("From") && self_ty == &format!("Uc{k}") {
+                                    impls += 1;
+                                    let sq: String = body.chars().filter(|c| !c.is_whitespace()).collect();
+                                    let used: Option<String> = sq.split("Self::").nth(1).map(|r| r.chars().take_while(|c| c.is_alphanumeric() || *c == '_' || *c == '#').collect());
+                                    if !used.as_ref().is_some_and(|u| cv.contains(u)) {
+                                        rep.unsat("", false, json!({"why": format!("the From impl of CHOICE Uc{k} builds variant {:?}, the enum declares {:?}", used, cv), "case": case(n)}));
+                                    }
+                                }
+                            }
+                        }
+                        if impls != 2 {
+                            rep.unsat("", false, json!({"why": format!("CHOICE Uc{k} with two distinct payload types has {impls} From impls under generate_from_impls"), "case": case(n)}));
+                        }
+                        // (2) default function of the SEQUENCE member
+                        if let Some(ItemKind::Struct { fields, .. }) = m.item(&format!("Us{k}")).map(|i| &i.kind) {
+                            let named = fields.first().and_then(|f| f.attrs.get("default")).map(|v| v.trim_matches('"').to_string());
+                            let exists = named.as_ref().is_some_and(|f| m.items.iter().any(|it| matches!(it.kind, ItemKind::Fn { .. }) && &it.name == f));
+                            if !exists {
+                                rep.unsat("", false, json!({"why": format!("member `{n}` of Us{k}: default = {:?} names no generated function", named), "case": case(n)}));
+                            }
+                        } else {
+                            rep.unsat("", false, json!({"why": format!("SEQUENCE Us{k} is missing"), "case": case(n)}));
+                        }
+                        // (3) the constant of the ENUMERATED value
+                        let ev = variants_of(&format!("Ue{k}"));
+                        let init = m.item(&format!("UV{k}")).and_then(|i| match &i.kind {
+                            ItemKind::Const { init, .. } | ItemKind::Static { init, .. } => Some(init.chars().filter(|c| !c.is_whitespace()).collect::<String>()),
+                            _ => None,
+                        });
+                        let used = init.as_ref().and_then(|i| i.split("::").last().map(|x| x.trim_end_matches(')').to_string()));
+                        if !used.as_ref().is_some_and(|u| ev.contains(u)) {
+                            rep.unsat("", false, json!({"why": format!("value uv{k} of ENUMERATED Ue{k} is {:?}, the enum declares {:?}", init, ev), "case": case(n)}));
+                        }
+                    }
+                }
+                Err(e) => {
+                    if chunk.len() == 1 {
+                        rep.evaluations += 1;
+                        rep.unsat("", false, json!({"why": format!("generated text (generate_from_impls) is not a sequence of Rust items: {e}"), "case": case(&chunk[0])}));
+                    } else {
+                        for n in chunk {
+                            use_sites(&[n.clone()], rep);
+                        }
+                    }
+                }
+            },
+            Outcome::Err(e) => {
+                if chunk.len() == 1 {
+                    // not every Rust keyword is an ASN.1 identifier (`Self`)
+                    rep.count("use-site:not-asn1");
+                    rep.sample(json!({"compile_err": e, "name": chunk[0]}));
+                } else {
+                    for n in chunk {
+                        use_sites(&[n.clone()], rep);
+                    }
+                }
+            }
+            Outcome::Panic(p) => {
+                if chunk.len() == 1 {
+                    rep.unsat("", false, json!({"why": format!("panic: {p}"), "case": case(&chunk[0])}));
+                } else {
+                    for n in chunk {
+                        use_sites(&[n.clone()], rep);
+                    }
+                }
+            }
+        }
+    }
 }
